@@ -88,6 +88,40 @@ def hexarg(b):
     return b.hex() if b else "-"
 
 
+class Ref:
+    """a request argument that is a reference to an object of the receiver"""
+    def __init__(self, id_pack):
+        self.id_pack = id_pack
+
+
+def to_text_ordered(v):
+    """valtext.to_text for values that carry refcodec.FSet (frozenset in wire order)"""
+    out = []
+
+    def go(x):
+        t = type(x)
+        if t is refcodec.FSet:
+            out.append("{")
+            for y in x:
+                go(y)
+            out.append("}")
+        elif t is tuple:
+            out.append("(")
+            for y in x:
+                go(y)
+            out.append(")")
+        elif t is slice:
+            out.append("[")
+            go(x.start)
+            go(x.stop)
+            go(x.step)
+            out.append("]")
+        else:
+            out.append(valtext.to_text(x))
+    go(v)
+    return " ".join(out)
+
+
 class Policy:
     """chooses among the legal forms of a node; records what it chose"""
     def __init__(self, r, mode):
@@ -376,7 +410,7 @@ def audit_real_frames(stream_bytes, compress, problems, frames):
         if flag != want_flag:
             problems.append("packet of %d bytes has flag %d, published %d" % (len(data), flag, want_flag))
         try:
-            val = refcodec.decode(data)
+            val = refcodec.decode(data, keep_order=True)
             msg = refcodec.parse_message(val)
         except refcodec.FormatError as ex:
             problems.append("real packet %s..: %s" % (data.hex()[:60], ex))
@@ -564,9 +598,9 @@ def run_server_conversation(seed, idx):
 
     def args_boxed(items):
         """arguments: all by value in one LABEL_VALUE, or item by item under LABEL_TUPLE (both published)"""
-        if all(type(x) is not tuple or x[0] != "ref" for x in items) and r.chance(1, 2):
+        if not any(isinstance(x, Ref) for x in items) and r.chance(1, 2):
             return R.box_value(tuple(items))
-        return R.box_tuple(R.box_local(x[1]) if type(x) is tuple and x[:1] == ("ref",) else R.box_value(x) for x in items)
+        return R.box_tuple(R.box_local(x.id_pack) if isinstance(x, Ref) else R.box_value(x) for x in items)
 
     script = ["ping", "ping", "big", "attr", "add", "echo", "callfn", "fail", "stop", "missing", "del", "badref"]
     r.shuffle(script)
@@ -577,7 +611,7 @@ def run_server_conversation(seed, idx):
         if rootb[0] != R.LABEL_REMOTE_REF:
             problems.append("getroot: the root did not travel as LABEL_REMOTE_REF: %r" % (rootb,))
         else:
-            root = ("ref", rootb[1])
+            root = Ref(rootb[1])
     for op in script:
         if root is None and op not in ("ping", "big"):
             continue
@@ -600,8 +634,8 @@ def run_server_conversation(seed, idx):
         elif op == "callfn":
             fb = rpc("getattr add", "GETATTR", args_boxed([root, "add"]))
             if fb is not None and fb[0] == R.LABEL_REMOTE_REF:
-                rpc("call add", "CALL", args_boxed([("ref", fb[1]), (20, 22), ()]), want=(42,))
-                rpc("del add", "DEL", args_boxed([("ref", fb[1]), 1]), want=(None,))
+                rpc("call add", "CALL", args_boxed([Ref(fb[1]), (20, 22), ()]), want=(42,))
+                rpc("del add", "DEL", args_boxed([Ref(fb[1]), 1]), want=(None,))
             elif fb is not None:
                 problems.append("getattr add: a bound method did not travel as LABEL_REMOTE_REF: %r" % (fb,))
         elif op == "fail":
@@ -723,6 +757,7 @@ def correspondence(ctx):
                 add("brine dec " + bs.hex(), "dec", bs.hex(), want,
                     "dec:%s:%d:%s" % (head, size_class(len(bs)), ",".join(sorted(pol.used))[:80]))
     c.extra["reference_forms_used"] = forms_used
+    ctx.log("values done: %d op lines so far" % len(lines))
 
     # (b) packets
     for data in frame_payloads(r, quick):
@@ -757,6 +792,7 @@ def correspondence(ctx):
                     "%d bytes level=%d force=%s" % (len(data), level, force), want,
                     "recv:%d:%d:%s" % (size_class(len(data)), level, force))
 
+    ctx.log("packets done: %d op lines so far" % len(lines))
     # (c) conversations
     n_conv = ctx.budget(100, 1500)
     conv_forms = {}
@@ -775,7 +811,7 @@ def correspondence(ctx):
             c.signatures.add("conv:%s:%s" % (direction, ",".join(sorted(set("%s=%s" % (n.split("/")[0], o) for n, o in res["ops"])))))
             for kind, val, data in res["frames"]:
                 c.count("real-frame:" + kind)
-                t = valtext.to_text(val)
+                t = to_text_ordered(val)
                 add("spec msg " + t, "msg", t, "ok %s %s" % (kind, data.hex()),
                     "msg:%s:%s:%d" % (kind, val[2][0] if kind == "request" else "-", size_class(len(data))))
             if len(c.samples) < 6 and idx == 3:
@@ -783,12 +819,14 @@ def correspondence(ctx):
                                       real_packets=[(k, d.hex()[:80]) for k, _v, d in res["frames"][:5]]))
     c.extra["conversation_reference_forms_used"] = conv_forms
 
+    ctx.log("conversations done: %d op lines, %.1f MB for the driver" % (len(lines), sum(len(l) for l in lines) / 1e6))
     # the Lean side
     try:
         outs = run_driver(lines, exe="drv_spec")
     except DriverError as ex:
         c.error = str(ex)
         return c
+    ctx.log("driver done")
     for (part, case, want, sig), line, got in zip(expect, lines, outs):
         c.evaluations += 1
         if part == "enc-ext-strict":
@@ -952,7 +990,7 @@ def replay(case):
         out["implementation"] = dict(ops=res["ops"], problems=res["problems"],
                                      real_packets=[(k, d.hex()[:100]) for k, _v, d in res["frames"][:20]])
         out["oracle"] = "; ".join(res["problems"]) or "holds"
-        lines = ["spec msg " + valtext.to_text(val) for _k, val, _d in res["frames"][:50]]
+        lines = ["spec msg " + to_text_ordered(val) for _k, val, _d in res["frames"][:50]]
         outs = run_driver(lines, exe="drv_spec") if lines else []
         out["model"] = ["agrees" if o == "ok %s %s" % (k, d.hex()) else o[:120]
                         for o, (k, _v, d) in zip(outs, res["frames"][:50])]
